@@ -92,6 +92,15 @@ int main(int argc, char **argv)
       report("parent", "-", D, gd_parent_fragment(D, k));
     }
   }
-  if (gd_close(D)) { printf("CLOSE-FAILED\n"); gd_discard(D); }
+  if (gd_close(D)) {
+    /* the handle survives a failed close: the documented way out is gd_discard; retry it a
+     * bounded number of times (each attempt closes at most one more failing file) */
+    int k, e0 = gd_error(D);
+    printf("CLOSE-FAILED %d\n", e0);
+    for (k = 1; k <= 64; k++)
+      if (gd_discard(D) == 0) break;
+    if (k <= 64) printf("DISCARD-RETRIES %d\n", k); else printf("DISCARD-NEVER\n");
+  }
+  fflush(stdout);
   return bad;
 }
